@@ -224,8 +224,23 @@ def forbidden_tokens() -> list[str]:
     return hits
 
 
+# further theorem files audited together with a property (shared results the property relies on)
+EXTRA_MODULES = {
+    "C01": ["Reach"],
+    "C02": ["Reach"],
+    "C09": ["Reach"],
+}
+
+
 def property_theorems(prop: str) -> list[str]:
     """names of the theorems stated in LW/Properties/<prop>.lean (fully qualified)"""
+    names: list[str] = []
+    for mod in [prop, *EXTRA_MODULES.get(prop, [])]:
+        names += _theorems_in(mod)
+    return names
+
+
+def _theorems_in(prop: str) -> list[str]:
     f = LEAN / "LW" / "Properties" / f"{prop}.lean"
     if not f.exists():
         raise MachineryFault(f"no property file {f}")
@@ -251,7 +266,8 @@ def proof_audit(prop: str, thorough: bool = False) -> dict:
     """build the property module, grep forbidden tokens, audit axioms of every property theorem"""
     t0 = time.time()
     mod = f"LW.Properties.{prop}"
-    build_lean([mod, "lwdriver"])
+    extra = [f"LW.Properties.{m}" for m in EXTRA_MODULES.get(prop, [])]
+    build_lean([mod, *extra, "lwdriver"])
     hits = forbidden_tokens()
     if hits:
         raise MachineryFault("forbidden tokens in Lean sources:\n" + "\n".join(hits))
@@ -261,7 +277,7 @@ def proof_audit(prop: str, thorough: bool = False) -> dict:
     audit_dir = LEAN / ".lake" / "audit"
     audit_dir.mkdir(parents=True, exist_ok=True)
     af = audit_dir / f"Audit{prop}.lean"
-    af.write_text(f"import {mod}\n" + "".join(f"#print axioms {t}\n" for t in thms))
+    af.write_text("".join(f"import {m}\n" for m in [mod, *extra]) + "".join(f"#print axioms {t}\n" for t in thms))
     rc, out = run_cmd(["lake", "env", "lean", str(af)], LEAN)
     if rc != 0:
         raise MachineryFault("axiom audit failed:\n" + out[-4000:])
@@ -285,7 +301,7 @@ def proof_audit(prop: str, thorough: bool = False) -> dict:
     }
     if thorough:
         t1 = time.time()
-        rc, out = run_cmd(["lake", "env", "leanchecker", mod], LEAN, timeout=3000)
+        rc, out = run_cmd(["lake", "env", "leanchecker", mod, *extra], LEAN, timeout=3000)
         res["leanchecker"] = {"rc": rc, "tail": out[-300:], "s": round(time.time() - t1, 1)}
         if rc != 0:
             raise MachineryFault("leanchecker rejected the compiled proofs:\n" + out[-3000:])
